@@ -157,6 +157,9 @@ JudgeWslice(e) ==
      ELSE LET rc == Cells(e.res.v)
           IN IF Cols(rc) # AbsWsliceCols(cs, e.a, e.b) THEN V("Wslice.Columns", FALSE)
              ELSE IF ~IsSubseq(ZeroCells(rc), ZeroCells(cs)) THEN V("Wslice.ZeroWidthInvented", FALSE)
+             ELSE IF LET strip(zs) == [q \in 1..Len(zs) |-> <<zs[q][1], Disp(zs[q][2])>>]
+                     IN ~IsSubseq(strip(ZeroMust(e.f, e.a, e.b)), ZeroCells(rc)) \/ ~IsSubseq(ZeroCells(rc), strip(ZeroMay(e.f, e.a, e.b)))
+                  THEN V("Wslice.ZeroWidthOfOtherColumns", FALSE)
              ELSE IF ~Consistent(e.res) THEN V("Wslice.LenText", FALSE)
              ELSE V("ok", e.res.v = ImplWslice(e.f, e.a, e.b))
 
